@@ -5,3 +5,6 @@ JOBS = [
 BOUNDS = {'quick': 'every message text of <=3 arbitrary UTF-16 units (null included), all 5 types, line 0..9999, file/function/category of <=2 printable ASCII characters or null pointers, <=2 custom attributes (string of <=2 arbitrary units / any int / bool) under 5 non-shadowing names, compact on/off', 'thorough': '<=3 custom attributes'}
 OUTSIDE = 'the JSON TEXT (syntax validity, escaping, number rendering, absence of raw line breaks inside strings) is produced by Qt (QJsonDocument::toJson), which is binary-only here: assumed by contract, not decided. List/map attribute values; longer texts.'
 ASSUMPTIONS = ['QJsonDocument::toJson emits valid JSON that parses back to an equal object; Compact output has no line break (Qt contract)', 'QJsonValue::fromVariant conversions as observed on Qt 5.15.8 (null QString -> "", QDateTime -> ISO string, integers -> number)']
+
+for _j in JOBS:
+    _j.setdefault('mem_est', 4)
